@@ -271,6 +271,7 @@ def replay_case(arg):
     if rec.get('_reduced_before_nids') and any(m['kind'] == 'H' for m in rec['subs']) and rec['nids'] > 1:
         feats.append('reduced_before_nids_hetero')
     n = rec['nbottom'] + rec['ntop']
+    snap = [covs.copy()] + [(t_.copy(), y_.copy()) for t_, y_ in data]       # what the constructors were handed
     # ---- counts, names, IDs (C02 names/IDs, C17) -----------------------------------------
     try:
         cnt['scribbles'] = scribble(hll) + scribble(pop)
@@ -344,6 +345,9 @@ def replay_case(arg):
             fail('GradSlotOK', 'gradient', dict(got=g.tolist(), expected=exp_g.tolist(), names=rec['names']))
     if not np.array_equal(x_in, x):
         fail('NoInputWrite', 'parameters_modified', None)
+    if not (np.array_equal(snap[0], covs) and all(np.array_equal(a, t_) and np.array_equal(b, y_)
+                                                  for (a, b), (t_, y_) in zip(snap[1:], data))):
+        fail('NoInputWrite', 'constructor_arrays_modified', None)
     # value again after S1 (the sensitivity switch must not matter)
     if v is not None and s1 is not None and not fails:
         v2 = hll(x_in)
